@@ -11,8 +11,17 @@
 EXTENDS ReaderA
 
 GrowToQ(c, limit) == IF c * 2 <= limit THEN c * 2 ELSE 0
-FillQ(x, s) == LET n == IF s.cap - Len(s.buf) < Len(x) - s.src THEN s.cap - Len(s.buf) ELSE Len(x) - s.src
-               IN [s EXCEPT !.buf = @ \o SubSeq(x, s.src + 1, s.src + n), !.src = @ + n, !.lastfill = n]
+\* the reader's fill_buf(); the s.failAt-th source operation (fills and real seeks, counted in s.nsrc) fails,
+\* possibly after part of the data was delivered (s.partial): the buffer is discarded, the reader Finished
+FillQ(x, s) ==
+  LET n == IF s.cap - Len(s.buf) < Len(x) - s.src THEN s.cap - Len(s.buf) ELSE Len(x) - s.src IN
+  IF s.nsrc + 1 = s.failAt
+  THEN [s EXCEPT !.nsrc = @ + 1, !.ioerr = TRUE, !.st = "Finished", !.buf = <<>>, !.lastfill = 0,
+                 !.src = IF s.partial THEN @ + (n \div 2) ELSE @,
+                 !.ios = Append(@, [t |-> "r", a |-> s.cap - Len(s.buf), g |-> 0, e |-> "other"])]
+  ELSE [s EXCEPT !.buf = @ \o SubSeq(x, s.src + 1, s.src + n), !.src = @ + n, !.lastfill = n, !.nsrc = @ + 1,
+                 !.ios = Append(@, [t |-> "r", a |-> s.cap - Len(s.buf), g |-> n, e |-> ""])]
+IoResQ == [k |-> "io", kind |-> "other", msg |-> <<>>]
 \* find_line: offset just after the first LF at or after start; -1 if there is none
 FindLineQ(b, start) == LET P == {i \in start..(Len(b) - 1) : b[i + 1] = LF} IN IF P = {} THEN -1 ELSE Min(P) + 1
 \* search (stage 0) / search_incomplete (stage = RecordPos): inc = -1 means complete
@@ -74,27 +83,30 @@ ResumeQ(x, limit, s, pos, makeRoom) ==
                  [s EXCEPT !.buf = SubSeq(@, k + 1, Len(@)), !.p0 = 0,
                            !.sq = IF pos >= 1 THEN @ - k ELSE @, !.sp = IF pos >= 2 THEN @ - k ELSE @, !.ql = IF pos >= 3 THEN @ - k ELSE @]
   IN IF refused THEN [found |-> FALSE, err |-> <<[k |-> "buffer_limit", msg |-> <<>>]>>, s |-> s1]
-     ELSE LET s2 == FillQ(x, s1)
-              r == SearchQ(s2.buf, pos, s2.p0, s2.sq, s2.sp, s2.ql)
-              s3 == ApplyQ(s2, r)
-          IN IF r.inc # -1 THEN ResumeQ(x, limit, s3, r.inc, makeRoom)
-             ELSE LET v == ValidateQ(s3, FALSE) IN [found |-> TRUE, err |-> v.err, s |-> v.s]
+     ELSE LET s2 == FillQ(x, s1) IN
+          IF s2.ioerr THEN [found |-> FALSE, err |-> <<IoResQ>>, s |-> s2]
+          ELSE LET r == SearchQ(s2.buf, pos, s2.p0, s2.sq, s2.sp, s2.ql)
+                   s3 == ApplyQ(s2, r)
+               IN IF r.inc # -1 THEN ResumeQ(x, limit, s3, r.inc, makeRoom)
+                  ELSE LET v == ValidateQ(s3, FALSE) IN [found |-> TRUE, err |-> v.err, s |-> v.s]
 
 IncrementQ(s) == [s EXCEPT !.pbyte = @ + (s.p1 + 1 - s.p0), !.pline = @ + 4, !.p0 = s.p1 + 1]
 \* init(): fill; nothing read = end of input
-InitQ(x, s) == LET s1 == FillQ(x, s) IN IF s1.lastfill = 0 THEN [ok |-> FALSE, s |-> [s1 EXCEPT !.st = "Finished"]] ELSE [ok |-> TRUE, s |-> s1]
+InitQ(x, s) == LET s1 == FillQ(x, s) IN
+               IF s1.ioerr THEN [ok |-> FALSE, io |-> TRUE, s |-> s1]
+               ELSE IF s1.lastfill = 0 THEN [ok |-> FALSE, io |-> FALSE, s |-> [s1 EXCEPT !.st = "Finished"]] ELSE [ok |-> TRUE, io |-> FALSE, s |-> s1]
 ResOf(r) == IF r.err # <<>> THEN r.err[1] ELSE IF r.found THEN RecQ(r.s.buf, r.s) ELSE [k |-> "none"]
 
 \* ---- next(): [res, s]
 NextQ(x, limit, s0) ==
-  LET s == [s0 EXCEPT !.grows = <<>>] IN
+  LET s == [s0 EXCEPT !.grows = <<>>, !.ios = <<>>, !.ioerr = FALSE] IN
   IF s.st = "Finished" THEN [res |-> [k |-> "none"], s |-> s]
   ELSE
   LET i == InitQ(x, s)
       pre == CASE s.st = "New" -> IF i.ok THEN [stop |-> FALSE, s |-> [i.s EXCEPT !.st = "Parsing"]] ELSE [stop |-> TRUE, s |-> i.s]
                [] s.st = "Positioned" -> [stop |-> FALSE, s |-> [s EXCEPT !.st = "Parsing"]]
                [] OTHER -> [stop |-> FALSE, s |-> IF s.inc = -1 THEN IncrementQ(s) ELSE s]     \* Parsing
-  IN IF pre.stop THEN [res |-> [k |-> "none"], s |-> pre.s]
+  IN IF pre.stop THEN [res |-> IF pre.s.ioerr THEN IoResQ ELSE [k |-> "none"], s |-> pre.s]
      ELSE IF pre.s.inc = -1
      THEN LET r == DoSearchQ(pre.s) IN
           IF r.err # <<>> \/ r.found THEN [res |-> ResOf(r), s |-> r.s]
@@ -124,7 +136,7 @@ SetLoopQ(x, limit, s, pos, isNew, n) ==
               s2 == IncrementQ(r.s)
           IN IF n > 0 /\ Len(pos1) = n THEN [res |-> [k |-> "ok"], s |-> s2, pos |-> pos1] ELSE SetLoopQ(x, limit, s2, pos1, isNew, n)
 FillSetQ(x, limit, s0, rset, n) ==
-  LET s == [s0 EXCEPT !.grows = <<>>]
+  LET s == [s0 EXCEPT !.grows = <<>>, !.ios = <<>>, !.ioerr = FALSE]
       fail(res, s1) == [res |-> res, s |-> s1, rset |-> [rset EXCEPT !.positions = <<>>]]
   IN IF s.st = "Finished" THEN fail([k |-> "none"], s)
      ELSE
@@ -132,22 +144,26 @@ FillSetQ(x, limit, s0, rset, n) ==
          pre == CASE s.st = "New" -> IF i.ok THEN [stop |-> FALSE, s |-> [i.s EXCEPT !.st = "Positioned"]] ELSE [stop |-> TRUE, s |-> i.s]
                   [] s.st = "Parsing" -> [stop |-> FALSE, s |-> [(IF s.inc = -1 THEN IncrementQ(s) ELSE s) EXCEPT !.st = "Positioned"]]
                   [] OTHER -> [stop |-> FALSE, s |-> s]
-     IN IF pre.stop THEN fail([k |-> "none"], pre.s)
+     IN IF pre.stop THEN fail(IF pre.s.ioerr THEN IoResQ ELSE [k |-> "none"], pre.s)
         ELSE LET r == SetLoopQ(x, limit, pre.s, <<>>, TRUE, n) IN
              IF r.res.k # "ok" THEN fail(r.res, r.s)
              ELSE [res |-> r.res, s |-> r.s, rset |-> [buf |-> r.s.buf, positions |-> r.pos]]
 SetViewQ(rset) == [i \in 1..Len(rset.positions) |->
                      LET p == rset.positions[i] IN RecQ(rset.buf, [p0 |-> p.p0, p1 |-> p.p1, sq |-> p.sq, sp |-> p.sp, ql |-> p.ql])]
 
-\* ---- seek(line, byte)
+\* ---- seek(line, byte): [res, s]; a failing seek of the source leaves the reader as it was
 SeekQ(x, s0, line, byte) ==
-  LET s == [s0 EXCEPT !.grows = <<>>]
+  LET s == [s0 EXCEPT !.grows = <<>>, !.ios = <<>>, !.ioerr = FALSE]
       p == s.p0 + (byte - s.pbyte)
   IN IF p >= 0 /\ p < Len(s.buf)
-     THEN [s EXCEPT !.pline = line, !.pbyte = byte, !.inc = -1, !.st = "Positioned", !.p0 = p, !.p1 = 0]
-     ELSE FillQ(x, [s EXCEPT !.src = IF byte < Len(x) THEN byte ELSE Len(x), !.buf = <<>>, !.pline = line, !.pbyte = byte,
-                              !.inc = -1, !.st = "Positioned", !.p0 = 0, !.p1 = 0])
-InitReaderQ(cap) == [src |-> 0, buf |-> <<>>, cap |-> cap, st |-> "New", inc |-> -1, p0 |-> 0, p1 |-> 0, sq |-> 0, sp |-> 0, ql |-> 0,
+     THEN [res |-> [k |-> "ok"], s |-> [s EXCEPT !.pline = line, !.pbyte = byte, !.inc = -1, !.st = "Positioned", !.p0 = p, !.p1 = 0]]
+     ELSE IF s.nsrc + 1 = s.failAt
+     THEN [res |-> IoResQ, s |-> [s EXCEPT !.nsrc = @ + 1, !.ios = Append(@, [t |-> "s", a |-> byte, g |-> 0, e |-> "other"])]]
+     ELSE LET f == FillQ(x, [s EXCEPT !.nsrc = @ + 1, !.ios = Append(@, [t |-> "s", a |-> byte, g |-> 0, e |-> ""]),
+                                      !.src = IF byte < Len(x) THEN byte ELSE Len(x), !.buf = <<>>, !.pline = line, !.pbyte = byte,
+                                      !.inc = -1, !.st = "Positioned", !.p0 = 0, !.p1 = 0])
+          IN [res |-> IF f.ioerr THEN IoResQ ELSE [k |-> "ok"], s |-> f]
+InitReaderQ(cap, failAt, partial) == [nsrc |-> 0, failAt |-> failAt, partial |-> partial, ios |-> <<>>, ioerr |-> FALSE, src |-> 0, buf |-> <<>>, cap |-> cap, st |-> "New", inc |-> -1, p0 |-> 0, p1 |-> 0, sq |-> 0, sp |-> 0, ql |-> 0,
                      pline |-> 1, pbyte |-> 0, grows |-> <<>>, lastfill |-> 0]
 EmptySetQ == [buf |-> <<>>, positions |-> <<>>]
 =============================================================================
